@@ -152,13 +152,25 @@ func (r *Refs) RenameBranch(rootGoitPath, curBranchName, newBranchName string) e
 	r.Heads[curNum].Name = newBranchName
 	sort.Slice(r.Heads, func(i, j int) bool { return r.Heads[i].Name < r.Heads[j].Name })
 
-	// rename file
-	oldPath := filepath.Join(rootGoitPath, "refs", "heads", curBranchName)
-	newPath := filepath.Join(rootGoitPath, "refs", "heads", newBranchName)
-	if err := os.Rename(oldPath, newPath); err != nil {
-		return fmt.Errorf("fail to rename file: %w", err)
+	// write the branch under its new name; the file of the old name is removed by
+	// RemoveRenamedBranch once HEAD names the new one, so that HEAD always names an existing branch
+	for _, b := range r.Heads {
+		if b.Name == newBranchName {
+			if err := b.write(rootGoitPath); err != nil {
+				return fmt.Errorf("fail to write branch: %w", err)
+			}
+		}
 	}
 
+	return nil
+}
+
+// RemoveRenamedBranch removes the file of the old name of a renamed branch
+func (r *Refs) RemoveRenamedBranch(rootGoitPath, oldBranchName string) error {
+	oldPath := filepath.Join(rootGoitPath, "refs", "heads", oldBranchName)
+	if err := os.Remove(oldPath); err != nil {
+		return fmt.Errorf("fail to remove file: %w", err)
+	}
 	return nil
 }
 
